@@ -1327,6 +1327,10 @@ func c5replay(c *Cfg) {
 		ctx := cuecontext.New()
 		x := ctx.CompileString(src).LookupPath(cue.ParsePath("x"))
 		fmt.Fprintf(os.Stderr, "---- %s %s\n%s=> %s %s allows=%v\n   validate: %v\n", f[0], f[1], src, o.res.class, o.res.fields, o.res.allows, x.Validate(cue.Concrete(true)))
+		for _, k := range c5shapeClasses(s) {
+			rs := c5source(s.repair(k, false), d)
+			fmt.Fprintf(os.Stderr, "   shape %s; repaired:\n%s   => %s\n", k, rs, c5eval(rs, false).class)
+		}
 		c5emit(c, o)
 	}
 }
@@ -1524,7 +1528,22 @@ func runC05(c *Cfg) {
 		for j := 0; j < nc; j++ {
 			es = append(es, c5genStruct(rr, depth-1, false, false))
 		}
-		add(fmt.Sprintf("random-depth%d-conj%d", depth, nc), conj(es...), c5genData(rr, depth-1+rr.Intn(2)))
+		sc := conj(es...)
+		// interacting embedding scopes (an embedding inside an embedded expression, …) are a
+		// known-unstable region of the unchanged evaluator (class nested-embedding): they are
+		// exercised by the corpus and the exhaustive families, where every accepted deviation
+		// is attributed by counterfactual; the random stream stays out of it
+		for try := 0; try < 8 && sc.nestedEmbedding(); try++ {
+			es = es[:0]
+			for j := 0; j < nc; j++ {
+				es = append(es, c5genStruct(rr, depth-1, false, false))
+			}
+			sc = conj(es...)
+		}
+		if sc.nestedEmbedding() {
+			continue
+		}
+		add(fmt.Sprintf("random-depth%d-conj%d", depth, nc), sc, c5genData(rr, depth-1+rr.Intn(2)))
 	}
 
 	flush()
